@@ -156,13 +156,13 @@ def draw_model_cfg(data, tier, equivariant=None, allow_d3=True, classes=None):
         "torus": data.draw(st.booleans(), label="torus"), "N": N, "kernel_size": data.draw(st.sampled_from([1, 3]), label="kernel_size"),
         "explicit_mid": data.draw(st.booleans(), label="explicit_mid_keys"), "seed": data.draw(st.integers(0, 99999), label="seed"),
     }
-    # non-square inputs (extents stay compatible with the pooling) in a third of the cases
+    # non-square inputs (extents stay compatible with the pooling: multiples of 2^downsamples) in a third of the cases
     if data.draw(st.integers(0, 2), label="nonsquare") == 0:
-        unit = mult if cls == "UNet" else 1
-        lo = 2 if cls == "UNet" and d == 2 else 1
-        shape = [max(unit * data.draw(st.integers(lo, 3 if d == 2 else 2), label="N_ax"), 2) for _ in range(d)]
         if cls == "UNet":
-            shape = [max(v, 4 if d == 2 else 2) for v in shape]
+            floor = 4 if d == 2 else 2
+            shape = [max(mult * data.draw(st.integers(1, 2), label="N_ax"), floor) for _ in range(d)]
+        else:
+            shape = [max(data.draw(st.integers(1, 3 if d == 2 else 2), label="N_ax"), 2) for _ in range(d)]
         cfg["shape"] = shape
     if cls == "ConvBlock" and cfg["preact"]:
         # pre-activation order applies the norm / nonlinearity built for the output signature to the input: only defined when they agree
